@@ -41,6 +41,11 @@ C11_SYSCTL = (" Sysctl part: the same enumerations (depth <= 3), the 1..300 reco
               "\"N\\n\", cannot create files), injects the scripted permission / not-exist / I/O failures and logs in the format of the recording State, "
               "so the same host-state oracle applies; any other path, key or value, or a final file content different from the last successful write, is a violation.")
 E2E_RULE = {
+    "C10": (" Whole-process part (24 / 1200 cases): a permission-class receive error on one interface's connection (the process must exit with status 1, nothing is "
+            "re-dialled), a recoverable one (ENETDOWN) on the first connection (exactly one re-dial of that interface, the failed connection closed once and before "
+            "its successor is opened, nothing written to it afterwards, no other interface disturbed, clean stop on the signal that follows), and an interface that "
+            "does not exist for its first 1..3 lookups (attempts at least min(j x 250 ms, 3 s) apart - lower bounds only, real time -, one connection after the first "
+            "successful lookup); plus the supervision oracle of C20."),
     "C08": (" Whole-process part (36 / 1600 generated configurations x system states x signal {TERM, INT, HUP} x solicitations x wait 0..1.2 s): per "
             "advertising, forwarding interface with a non-zero lifetime the fake OS log must show exactly one zero-lifetime RA, to ff02::1, as the last "
             "write before the close on SIGTERM/SIGINT and none on SIGHUP."),
@@ -371,12 +376,13 @@ PROPS = {
     },
     "C10": {
         "parts": [
-            {"pkg": "internal/system", "files": ["system/zz_verif_policy_test.go"], "run": "TestVerif_C10policy",
+            {"pkg": "internal/system", "files": ["system/zz_verif_policy_test.go"], "run": "TestVerif_C10policy", "shards": {"quick": 4, "thorough": 8},
              "patches": [
                 {"name": "dial-lookupInterface", "file": "internal/system/dialer.go", "pattern": r"\blookupInterface\(d\.iface\)", "repl": "vkLookupInterface(d.iface)", "count": 1},
                 {"name": "dial-checkInterface", "file": "internal/system/dialer.go", "pattern": r"\bcheckInterface\(ifi, ifi\.Addrs\)", "repl": "vkCheckInterface(ifi, ifi.Addrs)", "count": 1},
                 {"name": "dial-dialNDP", "file": "internal/system/dialer.go", "pattern": r"\bdialNDP\(ifi\)", "repl": "vkDialNDP(ifi)", "count": 1}]},
-            {"pkg": "internal/corerad", "run": "TestVerif_C10live",
+            e2e_part("TestVerif_C10main"),
+            {"pkg": "internal/corerad", "run": "TestVerif_C10live", "shards": {"quick": 4, "thorough": 8},
              "files": ["corerad/zz_verif_C12_test.go", "corerad/zz_verif_sim_test.go", "corerad/zz_verif_adv_test.go", "corerad/zz_verif_mon_test.go",
                        "corerad/zz_verif_C06_test.go", "corerad/zz_verif_C07_test.go", "corerad/zz_verif_C09_test.go", "corerad/zz_verif_wire_test.go", "corerad/zz_verif_C10_test.go"]},
         ],
